@@ -14,7 +14,7 @@ ASSUMPTIONS = ["tolerance 100 L^2 eps cond_inf(L) kappa_V relative, both compute
 
 def run(ctx):
     ss = S.generate(ctx, 12 if ctx.quick else 100, 3 if ctx.quick else 6, max_e=6 if ctx.quick else 8,
-                    max_loops=3 if ctx.quick else 5, routings_per_graph=3, scales=(1, 1, 1, Fraction(1, 2 ** 33), 2 ** 30))
+                    max_loops=3 if ctx.quick else 5, routings_per_graph=3, scales=(1, 1, 1, Fraction(1, 2 ** 33), 2 ** 30), decouple=0.3, special=("vacuum", "vacuum"))
     ss += S.generate(ctx, 4 if ctx.quick else 25, 2, max_e=10, max_loops=4, routings_per_graph=3,
                      names=["banana4", "ladder3x", "mercedes", "banana5"])
     S.run(ss)
